@@ -65,6 +65,62 @@ SHAPES = {
 }
 
 
+def value_position_shapes():
+    """value-producing compound constructs x the positions that consume a value, inside a function: the converter chooses between a
+    conditional expression, assignments pushed into the branches and returns pushed into the branches - every combination once."""
+    pre = 'class E1(msg: Str): Exception(msg)\ndef risky(k: Int) -> Int raise [E1] =>\n    if k > 2 then raise E1("m")\n    k\n' \
+          'def riskyt(k: Int) -> (Int, Int) raise [E1] =>\n    if k > 2 then raise E1("m")\n    (k, k)\n\n'
+    out = {}
+    for tup in (False, True):
+        A, B, T, call = ('(1, 2)', '(3, 4)', '(Int, Int)', 'riskyt(k)') if tup else ('1', '2', 'Int', 'risky(k)')
+        values = {
+            'if-block': ['if k > 1 then', '    @A@', 'else', '    @B@'],
+            'if-oneline': ['if k > 1 then @A@ else @B@'],
+            'if-block-nested': ['if k > 1 then', '    if k > 5 then', '        @A@', '    else', '        @B@', 'else', '    @B@'],
+            'if-oneline-then-match': ['if k > 1 then match k', '    2 => @A@', '    _ => @B@', 'else @B@'],
+            'match': ['match k', '    1 => @A@', '    _ => @B@'],
+            'match-block-arms': ['match k', '    1 =>', '        print("one")', '        @A@', '    _ =>', '        @B@'],
+            'handle': [f'{call} handle', '    err: E1 => @B@'],
+            'handle-block-arm': [f'{call} handle', '    err: E1 =>', '        print("h")', '        @B@'],
+        }
+        for vname, vl in values.items():
+            vl = [l.replace('@A@', A).replace('@B@', B) for l in vl]
+            consumers = {
+                'def': ['def v := ' + vl[0]] + vl[1:] + ['print("x")', B],
+                'def-annotated': [f'def v: {T} := ' + vl[0]] + vl[1:] + ['print("x")', B],
+                'reassign': [f'def v: {T} := {A}', 'v := ' + vl[0]] + vl[1:] + ['print("x")', B],
+                'tail': vl,
+                'return': ['return ' + vl[0]] + vl[1:],
+                'tail-after-statement': ['print("pre")'] + vl,
+                'in-loop-def': ['for z in 0 .. 2 do', '    def w := ' + vl[0]] + ['    ' + l for l in vl[1:]] + ['    print("l")', B],
+            }
+            if tup:
+                consumers['def-tuple'] = ['def (va, vb) := ' + vl[0]] + vl[1:] + ['print("x")', B]
+                consumers['def-tuple-annotated'] = [f'def (va, vb): {T} := ' + vl[0]] + vl[1:] + ['print("x")', B]
+                consumers['def-fin-tuple'] = ['def fin (va, vb) := ' + vl[0]] + vl[1:] + ['print("x")', B]
+            for cname, body in consumers.items():
+                src = pre + f'def subj(k: Int) -> {T} =>\n' + ''.join('    ' + l + '\n' for l in body) + '\nprint("end")\n'
+                out[f"value-position:{vname}:{cname}:{'tuple' if tup else 'int'}"] = src
+    return out
+
+
+SHAPES.update(value_position_shapes())
+# a `with` (a statement in Python) where the converter looks for the value of a function / branch
+_W = 'def res := 10\ndef log(x: Int) => print("v {x}")\n'
+SHAPES.update({
+    'with:function-tail': _W + 'def subj(k: Int) -> Int =>\n    log(k)\n    with res do\n        log(res + k)\nprint("end")\n',
+    'with-as:function-tail': _W + 'def subj(k: Int) -> Int =>\n    with res as other: Int do\n        log(other + k)\nprint("end")\n',
+    'with:function-body': _W + 'def subj(k: Int) -> Int => with res do log(k)\nprint("end")\n',
+    'with:if-branch-tail': _W + 'def subj(k: Int) -> Int =>\n    if k > 1 then\n        with res do\n            log(k)\n    else\n        2\nprint("end")\n',
+    'with:match-arm-tail': _W + 'def subj(k: Int) -> Int =>\n    match k\n        1 =>\n            with res do\n                log(k)\n        _ => 2\nprint("end")\n',
+    'with:handle-arm-tail': _W + 'class E1(msg: Str): Exception(msg)\ndef risky(k: Int) -> Int raise [E1] => k\ndef subj(k: Int) -> Int =>\n    risky(k) handle\n        err: E1 =>\n'
+                            '            with res do\n                log(k)\nprint("end")\n',
+    'with:loop-body-tail': _W + 'def subj(k: Int) -> Int =>\n    for z in 0 .. k do\n        with res do\n            log(z)\n    k\nprint("end")\n',
+    'with:def-value': _W + 'def subj(k: Int) -> Int =>\n    def v := with res do log(k)\n    k\nprint("end")\n',
+    'with-as:nested': _W + 'def subj(k: Int) -> Int =>\n    with res as a: Int do\n        with res as b: Int do\n            log(a + b)\n    k\nprint("end")\n',
+})
+
+
 def norm_msg(m):
     m = re.sub(r"'[^']*'|\"[^\"]*\"", 'Q', m)
     m = re.sub(r'\(detected at line \d+\)|\(<[^>]*>, line \d+\)|line \d+', '', m)
@@ -190,13 +246,13 @@ def classify(msg, line, off):
         return 'f-string'
     if l.startswith('case ') or 'patterns may only match' in msg:
         return 'case-pattern-not-a-pattern'
-    if re.search(r'\b(def|class)\s+(True|False|None)\b|\bas\s+(True|False|None)\b|\bimport\b.*\b(True|False|None)\b|^(True|False|None)\b.*=|[(,]\s*(True|False|None)\s*[:,)=]', l) or 'cannot assign to' in msg:
+    if re.search(r'\b(def|class)\s+(True|False|None)\b|\bas\s+(True|False|None)\b|\bimport\b.*\b(True|False|None)\b|^(True|False|None)\b.*=|[(,]\s*(True|False|None)\s*[:,)=]|\blambda\s+(True|False|None)\b', l) or 'cannot assign to' in msg:
         return 'binding-of-True-False-None-or-literal'
     if re.match(r'except\b.*\bas\s+(?![A-Za-z_]\w*\s*:)', l):
         return 'except-as-non-identifier'
     if re.match(r'(from\b.*)?import\b', l):
         return 'import-of-non-identifier'
-    if 'duplicate argument' in msg or 'follows default argument' in msg or re.search(r'\*\w+.*\*\w+', l):
+    if 'duplicate argument' in msg or 'follows default argument' in msg or 'parameters cannot be parenthesized' in msg or re.search(r'\*\w+.*\*\w+', l):
         return 'parameter-list-not-pythonic'
     if l.startswith('=') or re.match(r'^\s*=', line) or re.search(r'^\s*,?\s*=', l):
         return 'empty-assignment-target'
@@ -236,6 +292,8 @@ def shard(i, n, nfuzz, ngen):
         if k % n == i:
             r = rng(PROP, 'gen', j)
             prog, _ = gen.generate(r)
+            if j % 3 == 1:
+                prog['layout'] = j
             judge(w, lang.to_mamba(prog), part, f'generated:{j}')
     corpus = [(rel, s) for rel, s in common.repo_samples('all') if len(s) < 2500]
     gcorpus = [lang.to_mamba(p) for _, p in sweeps.cells()[::7]]
